@@ -516,3 +516,86 @@ def ob_stop_vs_sibling_cleanup(c0: int, c1: int, c2: int, c3: int, c4: int, styl
 
 
 THOROUGH_SIB = B(False, True)
+
+
+# ------------------------------------------------------------------ the same run_id again
+class _AgainWF(Workflow):
+    """one step; how the run ends is decided by the start event: 0 StopEvent(result=tag), 1 the step raises"""
+
+    @step
+    async def only(self, ev: StartEvent) -> StopEvent:
+        if ev.how == 1:
+            raise ValueError("boom " + ev.tag)
+        return StopEvent(result=ev.tag)
+
+
+@obligation(quick=120, thorough=300, partitions_quick=[f"how_a == {a} and how_b == {b}" for a in (0, 1) for b in (0, 1)],
+            partitions_thorough=[f"how_a == {a} and how_b == {b} and consumed == {c}" for a in (0, 1) for b in (0, 1) for c in (False, True)],
+            what="a second run started under the run_id of a FINISHED run of the same runtime (the first handler still referenced, its stream "
+                 "consumed or not): either the runtime refuses it, or the second run's stream is its own — exactly one terminal event, the one "
+                 "of the second run's outcome, nothing of the first run in it, nothing after it",
+            bounds={"outcomes": "StopEvent / step failure, for each run", "first run's stream": "consumed / not consumed"})
+def ob_same_run_id_again(how_a: int, how_b: int, consumed: bool) -> bool:
+    """
+    pre: 0 <= how_a <= 1 and 0 <= how_b <= 1
+    post: _
+    """
+    import asyncio
+
+    from vlib.miniloop import MiniLoop
+    from workflows.plugins.basic import BasicRuntime
+
+    how_a, how_b = conc(how_a, 0, 1), conc(how_b, 0, 1)
+    consumed = True if consumed else False
+    out: dict = {}
+
+    async def main():
+        rt = BasicRuntime()
+        wf = _AgainWF(timeout=None, runtime=rt)
+        ha = wf.run(run_id="same", how=how_a, tag="A")
+        first: list = []
+        if consumed:
+            async for e in ha.stream_events():
+                first.append(e)
+        try:
+            await ha
+        except Exception:  # noqa: BLE001
+            pass
+        out["keep"] = ha                     # the application still holds the first handler
+        try:
+            hb = wf.run(run_id="same", how=how_b, tag="B")
+        except RuntimeError:
+            out["refused"] = True
+            return
+        got: list = []
+
+        async def watch():
+            async for e in hb.stream_events():
+                got.append(e)
+
+        wt = asyncio.ensure_future(watch())
+        try:
+            out["result"] = ("result", await asyncio.wait_for(hb, timeout=20))
+        except asyncio.TimeoutError:
+            out["result"] = ("HUNG", None)
+        except Exception as e:  # noqa: BLE001
+            out["result"] = ("error", str(e))
+        try:
+            await asyncio.wait_for(wt, timeout=20)
+        except asyncio.TimeoutError:
+            out["stream"] = "HUNG"
+        out["got"] = got
+
+    MiniLoop().run_until_complete(main())
+    if out.get("refused"):
+        return True
+    if out.get("stream") == "HUNG" or out.get("result", ("HUNG", None))[0] == "HUNG":
+        return False
+    got = out["got"]
+    terminal = [e for e in got if isinstance(e, (StopEvent, WorkflowFailedEvent, WorkflowCancelledEvent, WorkflowTimedOutEvent))]
+    if len(terminal) != 1 or got[-1] is not terminal[0]:
+        return False
+    t = terminal[0]
+    if how_b == 0:
+        return isinstance(t, StopEvent) and t.result == "B" and out["result"] == ("result", "B")
+    return isinstance(t, WorkflowFailedEvent) and "boom B" in str(t.exception) and out["result"][0] == "error" and "boom B" in out["result"][1]
